@@ -1,24 +1,238 @@
-//! Hostile inputs (C10) and forged consensus messages (C09) on the cluster's interfaces.
+//! Hostile inputs on all five interfaces of real nodes (C10) and forged consensus messages (C09),
+//! interleaved with normal traffic. Everything is drawn from the `hostile` stream (0 = do nothing).
 
 use std::collections::BTreeMap;
 
-use alpenglow::types::Slot;
 use alpenglow::crypto::merkle::BlockHash;
+use alpenglow::repair::{RepairRequestType, RepairResponse};
+use alpenglow::shredder::ShredIndex;
+use alpenglow::types::Slot;
+use alpenglow::{BlockId, Transaction};
 
-use crate::cluster::{ClusterCfg, Profile};
-use crate::net::SharedNet;
+use crate::cluster::{ClusterCfg, Profile, Role};
+use crate::kernel;
+use crate::net::{Iface, SharedNet, port_of};
 use crate::oracle::Observer;
+use crate::wire::{self, si};
+
+const H: &str = "hostile";
 
 pub struct Hostile {
     enabled: bool,
+    forger: bool,
+    hostile: bool,
+    tap_cursor: usize,
+    recent_a2a: Vec<Vec<u8>>,
+    recent_shreds: Vec<Vec<u8>>,
+    until_ms: Option<u64>,
 }
 
 impl Hostile {
-    pub fn new(_cfg: &ClusterCfg, profile: &Profile) -> Self {
-        Self { enabled: profile.hostile || profile.forger }
+    pub fn new(cfg: &ClusterCfg, profile: &Profile) -> Self {
+        Self {
+            enabled: profile.hostile || profile.forger,
+            forger: profile.forger,
+            hostile: profile.hostile,
+            tap_cursor: 0,
+            recent_a2a: Vec::new(),
+            recent_shreds: Vec::new(),
+            // in liveness profiles the hostile phase ends at the stabilisation time
+            until_ms: if profile.liveness { cfg.net.stabilise_at_ms } else { None },
+        }
     }
 
-    pub fn tick(&mut self, _cfg: &ClusterCfg, _net: &SharedNet, _obs: &Observer, _blocks: &BTreeMap<Slot, Vec<BlockHash>>) {
-        if !self.enabled {}
+    fn targets(cfg: &ClusterCfg) -> Vec<usize> {
+        (0..cfg.n).filter(|i| cfg.roles[*i] == Role::Correct).collect()
+    }
+
+    fn pick_target(cfg: &ClusterCfg) -> Option<usize> {
+        let t = Self::targets(cfg);
+        if t.is_empty() { None } else { Some(t[kernel::choose(H, t.len() as u64) as usize]) }
+    }
+
+    pub fn tick(&mut self, cfg: &ClusterCfg, net: &SharedNet, obs: &Observer, blocks: &BTreeMap<Slot, Vec<BlockHash>>) {
+        if !self.enabled {
+            return;
+        }
+        if self.until_ms.is_some_and(|t| kernel::now_ms() >= t) {
+            return;
+        }
+        // harvest recent genuine traffic as raw material
+        {
+            let c = net.lock().unwrap();
+            for rec in &c.taps[self.tap_cursor..] {
+                if rec.from_node >= cfg.n {
+                    continue;
+                }
+                match rec.from_iface {
+                    Iface::A2A => {
+                        self.recent_a2a.push(rec.bytes.as_ref().clone());
+                        if self.recent_a2a.len() > 64 {
+                            self.recent_a2a.remove(0);
+                        }
+                    }
+                    Iface::Dissem => {
+                        if self.recent_shreds.len() < 16 || kernel::now_ms() % 7 == 0 {
+                            self.recent_shreds.push(rec.bytes.as_ref().clone());
+                            if self.recent_shreds.len() > 32 {
+                                self.recent_shreds.remove(0);
+                            }
+                        }
+                    }
+                    _ => {}
+                }
+            }
+            self.tap_cursor = c.taps.len();
+        }
+        let src = cfg.n + 2; // an address outside the validator set
+        let top_slot = blocks.keys().next_back().map_or(1, |s| s.inner());
+        let known_block: Option<BlockId> = blocks.iter().next_back().map(|(s, h)| (*s, h[0].clone()));
+
+        // ---- forged consensus messages (C09) ----
+        if self.forger && !self.recent_a2a.is_empty() && kernel::choose(H, 3) != 0 {
+            let k = 1 + kernel::choose(H, 4);
+            for _ in 0..k {
+                let a = &self.recent_a2a[kernel::choose(H, self.recent_a2a.len() as u64) as usize];
+                let b = &self.recent_a2a[kernel::choose(H, self.recent_a2a.len() as u64) as usize];
+                let is_cert = a.len() >= 4 && a[0] == 1;
+                let other_ok = b.len() >= 4 && b[0] == a[0];
+                if !other_ok {
+                    continue;
+                }
+                let m = if is_cert { crate::wireworld::mutate_cert(a, b) } else { crate::wireworld::mutate_vote(a, b, cfg.n) };
+                if let Some((bytes, class)) = m
+                    && let Some(t) = Self::pick_target(cfg)
+                {
+                    kernel::fault("forged_consensus_message");
+                    kernel::event(&format!("forge {class} -> n{t}"));
+                    net.lock().unwrap().inject(port_of(src, Iface::A2A), port_of(t, Iface::A2A), bytes, Some(1 + kernel::choose(H, 50)));
+                }
+            }
+        }
+        if !self.hostile {
+            return;
+        }
+        let Some(t) = Self::pick_target(cfg) else { return };
+        // ---- all-to-all: garbage, truncations, structurally hostile values ----
+        match kernel::choose(H, 6) {
+            0 => {}
+            1 => {
+                let len = kernel::choose(H, 400) as usize;
+                let bytes: Vec<u8> = (0..len).map(|_| kernel::choose(H, 256) as u8).collect();
+                kernel::fault("hostile_a2a_garbage");
+                net.lock().unwrap().inject(port_of(src, Iface::A2A), port_of(t, Iface::A2A), bytes, Some(1));
+            }
+            _ => {
+                if let Some(a) = self.recent_a2a.last() {
+                    let mut b = crate::net::corrupt(a);
+                    if kernel::choose(H, 3) == 0 && b.len() >= 16 {
+                        // absurd slot numbers
+                        let s = [u64::MAX, u64::MAX - 1, 1 << 62, 36_000 + top_slot, 35_999 + top_slot][kernel::choose(H, 5) as usize];
+                        wire::put_u64(&mut b, 8, s);
+                    }
+                    kernel::fault("hostile_a2a_mutated");
+                    net.lock().unwrap().inject(port_of(src, Iface::A2A), port_of(t, Iface::A2A), b, Some(1));
+                }
+            }
+        }
+        // ---- shreds: mutated copies of genuine shreds (headers, indices, sizes) ----
+        if kernel::choose(H, 3) != 0
+            && let Some(s) = self.recent_shreds.last()
+        {
+            let mut b = s.clone();
+            match kernel::choose(H, 7) {
+                0 => b = crate::net::corrupt(&b),
+                1 => wire::put_u64(&mut b, wire::SHRED_OFF_SLOT, [u64::MAX, top_slot + 1000, 0][kernel::choose(H, 3) as usize]),
+                2 => wire::put_u64(&mut b, wire::SHRED_OFF_SLICE, kernel::choose(H, 1024)),
+                3 => wire::put_u64(&mut b, wire::SHRED_OFF_INDEX, kernel::choose(H, 64)),
+                4 => b[wire::SHRED_OFF_LAST] ^= 1,
+                5 => b[wire::SHRED_OFF_TAG] ^= 1,
+                _ => {
+                    // odd-sized / truncated payload with a consistent length prefix
+                    if let Some(l) = wire::shred_layout(&b)
+                        && l.data_len > 3
+                    {
+                        let cut = 1 + kernel::choose(H, 3) as usize;
+                        b.drain(l.sig_off - cut..l.sig_off);
+                        wire::put_u64(&mut b, wire::SHRED_OFF_DATALEN, (l.data_len - cut) as u64);
+                    }
+                }
+            }
+            kernel::fault("hostile_shred");
+            net.lock().unwrap().inject(port_of(src, Iface::Dissem), port_of(t, Iface::Dissem), b, Some(1));
+        }
+        // ---- repair requests to the responder ----
+        if kernel::choose(H, 3) != 0 {
+            let bid: BlockId = match (&known_block, kernel::choose(H, 3)) {
+                (Some(b), 0 | 1) => b.clone(),
+                _ => (Slot::new(kernel::choose(H, top_slot + 5)), wire::synth_hash(1, 2)),
+            };
+            let sender = match kernel::choose(H, 4) {
+                0 => cfg.n as u64 + kernel::choose(H, 1000),
+                1 => u64::MAX,
+                _ => kernel::choose(H, cfg.n as u64),
+            };
+            let variant = kernel::choose(H, 3) as u32;
+            let slice = if variant >= 1 { Some([0, 1, 1023, kernel::choose(H, 1024)][kernel::choose(H, 4) as usize]) } else { None };
+            let shred = if variant == 2 { Some(kernel::choose(H, 64)) } else { None };
+            let bytes = wire::repair_request_bytes(sender, variant, &bid, slice, shred);
+            kernel::fault("hostile_repair_request");
+            net.lock().unwrap().inject(port_of(src, Iface::RepairReq), port_of(t, Iface::RepairResp), bytes, Some(1));
+        }
+        // ---- unsolicited / mismatched repair responses to the requester ----
+        if kernel::choose(H, 3) != 0 {
+            let bid: BlockId = known_block.clone().unwrap_or((Slot::new(1), wire::synth_hash(1, 2)));
+            let rt = match kernel::choose(H, 3) {
+                0 => RepairRequestType::LastSliceRoot(bid.clone()),
+                1 => RepairRequestType::SliceRoot(bid.clone(), si(kernel::choose(H, 1024) as usize)),
+                _ => RepairRequestType::Shred(bid.clone(), si(kernel::choose(H, 8) as usize), ShredIndex::new(kernel::choose(H, 64) as usize).expect("idx")),
+            };
+            let root: alpenglow::crypto::merkle::SliceRoot = {
+                let h: alpenglow::crypto::Hash = alpenglow::crypto::hash(b"hostile");
+                h.into()
+            };
+            let proof: alpenglow::crypto::merkle::DoubleMerkleProof = {
+                let h: alpenglow::crypto::Hash = alpenglow::crypto::hash(b"p");
+                vec![h; kernel::choose(H, 34) as usize].into()
+            };
+            let resp = match kernel::choose(H, 4) {
+                0 => RepairResponse::Nack(rt),
+                1 => RepairResponse::LastSliceRoot(rt, si(kernel::choose(H, 1024) as usize), root, proof),
+                2 => RepairResponse::SliceRoot(rt, root, proof),
+                _ => match self.recent_shreds.last().and_then(|b| wire::decode_shred(b)) {
+                    Some(s) => RepairResponse::Shred(rt, s),
+                    None => RepairResponse::Nack(rt),
+                },
+            };
+            if let Ok(bytes) = wincode::serialize(&resp)
+                && bytes.len() <= 1500
+            {
+                kernel::fault("hostile_repair_response");
+                net.lock().unwrap().inject(port_of(src, Iface::RepairResp), port_of(t, Iface::RepairReq), bytes, Some(1));
+            }
+        }
+        // ---- client transactions: oversize, empty, maximal, to every node (queued until it leads) ----
+        if kernel::choose(H, 2) == 1 {
+            let len = match kernel::choose(H, 5) {
+                0 => 0,
+                1 => alpenglow::MAX_TRANSACTION_SIZE,
+                2 => alpenglow::MAX_TRANSACTION_SIZE + 1,
+                3 => 1400,
+                _ => 513 + kernel::choose(H, 900) as usize,
+            };
+            let bytes = wincode::serialize(&Transaction(vec![0xEE; len])).expect("ser");
+            if bytes.len() <= 1500 {
+                if len > alpenglow::MAX_TRANSACTION_SIZE {
+                    kernel::fault("hostile_oversize_transaction");
+                } else {
+                    kernel::fault("hostile_transaction");
+                }
+                let mut c = net.lock().unwrap();
+                for t in Self::targets(cfg) {
+                    c.inject(port_of(src, Iface::Tx), port_of(t, Iface::Tx), bytes.clone(), Some(1));
+                }
+            }
+        }
+        let _ = obs;
     }
 }
